@@ -24,9 +24,16 @@ Pairs3 == { <<T, Bt>> : T \in TablesUpTo(3), Bt \in BSet }
 SeedVal == atoi(IOEnv.MC_SEED)
 Pairs3Sample == { pr \in Pairs3 : (Chk(pr[1]) + SeedVal) % 8 = 0 }
 
+\* transition emission thinned out deterministically (all transitions are still model-checked)
+EmitMod == atoi(IOEnv.MC_EMITMOD)
+EmitTRSel == \/ (Chk(A) + 7 * Chk(A') + Chk(B) + Len(A) + SeedVal) % EmitMod # 0
+             \/ EmitTR
+
 MCValSeqs == [f \in {"sid", "tomo", "obj", "cls"} |-> { <<1>>, <<2>>, <<3>>, <<1, 2>>, <<2, 1>>, <<3, 1>> }]
 MCSplitFields == {"sid", "tomo", "obj", "cls"}
 MCStarts == {1, 4}
+MCOrders == { <<"a", "b">>, <<"b", "a">>, <<"a", "b", "a2">>, <<"b", "a2", "a">>, <<"b", "a", "b2">>,
+              <<"a", "b", "b2", "a2">>, <<"b2", "a", "a2", "b">> }
 
 \* ---- simulation scope: initial pairs handed over by the driver (random tables, 0..MaxRows rows)
 FileRows(x) == [i \in DOMAIN x |-> R(x[i][1], x[i][2], x[i][3], x[i][4], x[i][5], x[i][6])]
